@@ -305,6 +305,21 @@ pub fn run(args: &Args) -> i32 {
         rec.sub("lattice_over_success_range", json!({"points": t.evals, "step": step.to_string()}));
         total = total.merge(t);
     }
+    // totals whose count of nanoseconds / seconds / minutes / hours / days / weeks equals an in-range one modulo 2^m
+    {
+        let cands = crate::cal::wrap_total_candidates();
+        let mut n = 0u64;
+        for c in cands {
+            n += 1;
+            match guard(|| check_n(c, true, &ltts)) {
+                Ok(Ok(_)) => {}
+                Ok(Err((e, g))) => rec.violation("wrap_totals", json!({"kind":"n","n":c.to_string()}), e, g),
+                Err(m) => rec.violation("wrap_totals", json!({"kind":"n","n":c.to_string()}), json!("no panic"), json!(m)),
+            }
+        }
+        total.evals += n;
+        rec.sub("wrap_totals", json!({"evaluations": n}));
+    }
     total = total.merge(sweep_zone_lookups(&rec));
     total = total.merge(sweep_range("i128_min", i128::MIN, i128::MIN + w, 1, &rec, &ltts));
     total = total.merge(sweep_range("i128_max", i128::MAX - w, i128::MAX, 1, &rec, &ltts));
